@@ -56,7 +56,16 @@ static void dump_log() {
         case REFS: printf("refs %d %ld %ld\n", r.t, r.a, r.b); break;
         } }
 }
-static void on_alarm(int) { dump_log(); printf("stalled hard limit: the program did not finish within 120 s of real time\nresult hung\n"); fflush(stdout); _exit(0); }
+static long alarm_seen = -1; static int alarm_ticks = 0;
+// every 10 s: no progress since the last tick = stuck (the in-program watchdog cannot run if its own vCPU is stuck);
+// still progressing after 300 s = the machine is too loaded to judge (result slow: inconclusive, not a violation)
+static void on_alarm(int) {
+    long p = progress.load();
+    if (p == alarm_seen) { dump_log(); printf("stalled no progress for 10 s of real time (progress=%ld)\nresult hung\n", p); fflush(stdout); _exit(0); }
+    alarm_seen = p;
+    if (++alarm_ticks >= 30) { dump_log(); printf("result slow\n"); fflush(stdout); _exit(0); }
+    alarm(10);
+}
 static void on_segv(int sig) { void* bt[40]; int n = backtrace(bt, 40); dump_log(); printf("segv backtrace:\n"); fflush(stdout); backtrace_symbols_fd(bt, n, 1); printf("result crashed signal=%d\n", sig); fflush(stdout); _exit(0); }
 
 static ObjectCache<int, Obj*>* oc;
@@ -92,7 +101,7 @@ static void worker(int id, int iters) {
 }
 
 static int run_program(const std::vector<std::string>& lines) {
-    signal(SIGSEGV, on_segv); signal(SIGABRT, on_segv); signal(SIGALRM, on_alarm); alarm(120);
+    signal(SIGSEGV, on_segv); signal(SIGABRT, on_segv); signal(SIGALRM, on_alarm); alarm(10);
     set_log_output(log_output_null);
     logbuf = new Rec[MAXLOG];
     std::istringstream is(lines.empty() ? "" : lines[0]); std::string kind; is >> kind;
